@@ -67,3 +67,18 @@ Example C08_run_example : forall u sort_opt,
   In RunExample.prot (run_entries s sort_opt 1 RunExample.snap RunExample.es) /\
   ~ In (fst RunExample.prot) (cr_obsolete_tests (snd (clean_run s sort_opt 1))).
 Proof. intros u so. destruct (RunExample.theorems_apply u so) as [_ [_ [_ [H1 [H2 _]]]]]. split; assumption. Qed.
+
+(* non-vacuity: every theorem of this file that has hypotheses has a concrete, non-trivial instance meeting ALL of them
+   (lemmas <Theorem>_witness / <Theorem>_applied in Proofs/WitnessesP.v); a representative one is restated here *)
+From Snaps Require Import Proofs.WitnessesP.
+Example C08_witnesses :
+  forall c u so,
+  NoDup (map fst (s_fs (w07_st c u))) /\
+  In w07_snap (fr_used (run_files (w07_st c u) 2)) /\
+  alookup w07_snap (s_fs (w07_st c u)) = Some (render (map to_entry w07_es)) /\
+  Forall centry_ok w07_es /\ NoDup (map fst w07_es) /\
+  In w07_tSkip (s_skipped (w07_st c u)) /\ w08_descends w07_tSkip w07_tSkipSub /\ no_space w07_tSkipSub /\
+  In w07_prot w07_es /\ fst w07_prot = snapshot_occ_fmt w07_tSkipSub 1 /\
+  In w07_prot (run_entries (w07_st c u) so 2 w07_snap w07_es) /\
+  ~ In (fst w07_prot) (cr_obsolete_tests (snd (clean_run (w07_st c u) so 2))).
+Proof. exact C08_witnesses_all. Qed.
